@@ -207,6 +207,25 @@ class Violations:
         return [{"key": k, "what": v[2], "count": v[0], "replay": v[3]} for k, v in sorted(self.d.items())]
 
 
+_HANGS = {}
+
+
+def hang_abort(scratch, hang=None, limit=3):
+    """Mass-hang guard: hang=True records a timed-out run; once one worker has seen `limit` of them it drops a
+    marker into the scratch directory and every worker skips its remaining cases (reported as skipped, the run is
+    then not exhaustive). Returns True when the remaining cases are to be skipped."""
+    marker = os.path.join(scratch, "ABORT-AFTER-HANGS")
+    if hang:
+        k = (os.getpid(), scratch)
+        _HANGS[k] = _HANGS.get(k, 0) + 1
+        if _HANGS[k] >= limit:
+            try:
+                open(marker, "w").close()
+            except OSError:
+                pass
+    return os.path.exists(marker)
+
+
 def scratch_cwd(bdir, tag):
     d = os.path.join(bdir, "scratch.%s.%d" % (tag, os.getpid()))
     os.makedirs(d, exist_ok=True)
